@@ -280,7 +280,7 @@ func httpVerbs(r *core.Run) {
 		return
 	}
 	prod := map[string]bool{}
-	ast.Inspect(wfd.Body, func(n ast.Node) bool {
+	ast.Inspect(core.TreeBody(wpk, wfd), func(n ast.Node) bool {
 		if cl, ok := n.(*ast.CompositeLit); ok {
 			t := core.TypeStr(wpk.TypesInfo.TypeOf(cl))
 			if strings.Contains(t, "annotations.HttpRule_") {
@@ -290,7 +290,7 @@ func httpVerbs(r *core.Run) {
 		return true
 	})
 	cons := map[string]bool{}
-	ast.Inspect(cfd.Body, func(n ast.Node) bool {
+	ast.Inspect(core.TreeBody(cpk, cfd), func(n ast.Node) bool {
 		if cc, ok := n.(*ast.CaseClause); ok {
 			for _, e := range cc.List {
 				t := core.TypeStr(cpk.TypesInfo.TypeOf(e))
